@@ -169,6 +169,14 @@ def run_ola(case):
   blks = [[sym("b%d_%d" % (k, i)) for i in range(size)] for k in range(m)]
   calls = []
   vals = wvalues(wv, size)
+  if wk == "callable":
+    # short-lived window callables of the same size first (made, used once, dropped): whatever a call keeps
+    # about a window callable must not be found again by a NEW callable that happens to get the same address
+    for i_ in range(6):
+      tmp_vals = [v + i_ + 1 for v in vals]
+      tmp_w = make_window(wk, tmp_vals, [])
+      list(overlap_add.list([[1] * size, [2] * size], size=size, hop=hop, wnd=tmp_w, normalize=False))
+      del tmp_w
   w = make_window(wk, vals, calls)
   kw = {}
   if size_given: kw["size"] = size
@@ -421,6 +429,14 @@ def run_stft(case):
       wrong.pop("hop", None)
       callkw = {"size": size}
       if hop is not None: callkw["hop"] = hop
+      # None is a value (no window, no stage): given at the call it replaces what was stored
+      for name_ in ("wnd", "before", "after", "transform", "inverse_transform"):
+        if kws.get(name_) is None:
+          wrong[name_] = ([Q(9)] * (size + 3)) if name_ == "wnd" else (lambda blk, *a_: [Q(5)] * len(blk))
+          callkw[name_] = None
+      if kws.get("ola") is not None and kws.get("ola_wnd") is None and "ola_wnd" in kws:
+        wrong["ola_wnd"] = [Q(7)] * size
+        callkw["ola_wnd"] = None
       proc = stft(func, **wrong)
     res = proc(list(x), **callkw)
     if not isinstance(res, Stream):
